@@ -320,6 +320,9 @@ func (c *FnCtx) autoInline(p *Pkg, fd *ast.FuncDecl) bool {
 	if c.inlineDepth >= 5 {
 		return false
 	}
+	if fn := c.prog.Fset.Position(fd.Pos()).Filename; strings.HasSuffix(fn, ".pb.go") && fd.Name.Name == "ProtoReflect" {
+		return false // protobuf runtime plumbing (unsafe / interior pointers): an opaque call
+	}
 	// small and loop-free, non-recursive
 	n := 0
 	bad := false
